@@ -131,8 +131,8 @@ TimingViolations(T, fam, banks, c) ==
 
 (* four-activate window: at most four activates of one rank in any tFAW cycles.
    acts: the issue cycles of the latest (up to four) activates of the rank, oldest
-   first.  Declaratively (FawBreaks): the activates of the rank issued less than
-   tFAW cycles before c, together with c, number more than four.                *)
+   first.  Declaratively (DRAMBank!TimingLegal): the activates issued less than
+   tFAW cycles before c in its rank, together with c, number more than four.    *)
 FawViolation(T, acts, c) ==
     IF c.k = "ACT" /\ T.t_faw > 0 /\ Len(acts) >= 4 /\ c.t - acts[Len(acts) - 3] < T.t_faw
     THEN {[rule |-> "tFAW_four_activate_window",
